@@ -503,6 +503,7 @@ pub fn find_suite(name: &str, thorough: bool) -> Option<Suite> {
         .chain(crash_suites(thorough))
         .chain(partition_suites(thorough))
         .chain(layout_suites(thorough))
+        .chain(full_ttl_suites(thorough))
         .find(|s| s.name == name)
 }
 
@@ -678,6 +679,28 @@ pub fn partition_ops() -> Vec<Op> {
         Op::Flush,
         Op::Reopen,
     ]
+}
+
+/// TTL-only rewrites (deferred records whose bytes live in the predecessor's extent)
+/// on a device that is full when the rewrite needs its block.
+pub fn full_ttl_ops() -> Vec<Op> {
+    vec![ins(0, V_X), ins(0, V_Y), ins(1, V_X), Op::UpdateTtl { k: 0, secs: 1000 }, Op::Flush, Op::Get(0)]
+}
+
+pub fn full_ttl_suites(thorough: bool) -> Vec<Suite> {
+    let mut v = Vec::new();
+    for (blocks, quick, deep) in [(2u64, 7usize, 10usize), (3, 0, 9)] {
+        if !thorough && quick == 0 {
+            continue;
+        }
+        let mut c = small_disk(3, blocks);
+        c.ttl = true;
+        c.cache = false;
+        let mut s = crash_suite(&format!("full-ttl{blocks}-v3"), c, std_tables(), full_ttl_ops(), if thorough { deep } else { quick });
+        s.log_io = false;
+        v.push(s);
+    }
+    v
 }
 
 pub fn partition_suites(thorough: bool) -> Vec<Suite> {
